@@ -95,7 +95,10 @@ class Run:
         """A partially consumed evaluation of a domain-less query with a (true) condition: one result, then abandoned."""
         x = let(klass, None)
         it = iter(an(entity(x, x.name != "")).evaluate())
-        r = next(it, None)
+        try:
+            r = next(it, None)
+        except Exception as ex:      # an exception out of an evaluation is an observation, not a harness crash
+            return f"{type(ex).__name__}: {ex}"
         m = self.idmap()
         got = m.get(id(r), 0) if r is not None else None
         it.close()
@@ -160,7 +163,10 @@ class Run:
             out["none"] = none
         elif a == "queryx":
             out["census_before"] = self.census()
-            out["n"] = self.queryx(CLS[rec["c"]], [self.objs[o + self.base] for o in rec["dom"]])
+            try:
+                out["n"] = self.queryx(CLS[rec["c"]], [self.objs[o + self.base] for o in rec["dom"]])
+            except Exception as ex:
+                out["error"] = f"{type(ex).__name__}: {ex}"
         elif a == "queryfirst":
             out["first"] = self.queryfirst(CLS[rec["c"]])
         elif a == "relate":
